@@ -138,4 +138,38 @@ let suite_ard (t : toks) : string =
     Buffer.add_string b (Printf.sprintf " REM %d" (List.length s.rbuf));
     Buffer.contents b
 
-let suites = [ ("rt", suite_rt); ("rd", suite_rd); ("ard", suite_ard) ]
+(* sk <pk> <sync|async[:schedule]> <ttype code> <hex> <next ttype code|->  *)
+let suite_sk (t : toks) : string =
+  let p = pk_of_string (next t) in
+  let mode = next t in
+  let ty = ttype_of_code (next_int t) in
+  let input = bytes_of_hex (next t) in
+  let nx = next t in
+  let fuel = nat_of_int (List.length input + 2) in
+  let s0 = { rbuf = input; rc = r0 } in
+  let after (cnt : string) (s : rst) : string =
+    if nx = "-" then Printf.sprintf "ok %s REM %d" cnt (List.length s.rbuf)
+    else
+      let nt = ttype_of_code (int_of_string nx) in
+      let r = if mode = "sync" then read_val p fuel nt s else aread_val p fuel nt s in
+      (match r with
+       | (Err _ | Panic _) as r ->
+         if mode = "sync" then Printf.sprintf "ok %s REM %d NEXT %s" cnt (List.length s.rbuf) (show_res_err r)
+         else Printf.sprintf "ok %s NEXT %s" cnt (show_res_err r)
+       | Ok (v, s2) ->
+         let b = Buffer.create 64 in
+         if mode = "sync" then Buffer.add_string b (Printf.sprintf "ok %s REM %d NEXT " cnt (List.length s.rbuf))
+         else Buffer.add_string b (Printf.sprintf "ok %s NEXT " cnt);
+         show_val b v;
+         Buffer.add_string b (Printf.sprintf " REM %d" (List.length s2.rbuf));
+         Buffer.contents b) in
+  if mode = "sync" then
+    (match skip p fuel ty s0 with
+     | (Err _ | Panic _) as r -> show_res_err r
+     | Ok (n, s) -> after (string_of_z n) s)
+  else
+    (match askip p fuel ty s0 with
+     | (Err _ | Panic _) as r -> show_res_err r
+     | Ok ((), s) -> after "-" s)
+
+let suites = [ ("rt", suite_rt); ("rd", suite_rd); ("ard", suite_ard); ("sk", suite_sk) ]
